@@ -340,6 +340,56 @@ example : ((rotZ (0 : Int) 1).tr.mul (rotZ 0 1) = M3.id) ∧
     dot3 (((rotZ (0 : Int) 1).mul (eulerZYX 1 0 0 1 1 0)).mulVec (1, 0, 0)) ((rotZ 0 1).mulVec (1, 0, 0)) = 0 := by
   decide
 
+/-! ## 2×2 input of `euler_from_rotationmatrix` (the matrix is embedded as the upper-left block) -/
+section planar
+variable {α : Type} [CommRing α]
+
+/-- every proper 2×2 matrix is a planar rotation `[[c, -s], [s, c]]` with `c² + s² = 1` -/
+theorem proper2_form (m : M2 α) (h : m.Proper) :
+    m = rot2 m.b00 m.b10 ∧ m.b00 * m.b00 + m.b10 * m.b10 = 1 := by
+  obtain ⟨a, b, c, d⟩ := m
+  obtain ⟨⟨h1, h2⟩, h3⟩ := h
+  simp only [M2.tr, M2.mul, M2.id, M2.mk.injEq] at h1 h2
+  simp only [M2.det] at h3
+  obtain ⟨p1, p2, p3, p4⟩ := h1
+  obtain ⟨k1, k2, k3, k4⟩ := h2
+  refine ⟨?_, p1⟩
+  simp only [rot2, M2.mk.injEq]
+  refine ⟨trivial, ?_, trivial, ?_⟩
+  · linear_combination (-b) * p1 + (-c) * h3 + a * p2
+  · linear_combination (-d) * p1 + a * h3 + c * p2
+
+/-- the embedding of a planar rotation is the elementary rotation about `z` -/
+theorem embed2_rot2 (c s : α) : embed2 (rot2 c s) = rotZ c s := rfl
+
+/-- the embedded matrix of a proper 2×2 matrix is a proper 3×3 rotation -/
+theorem embed2_proper (m : M2 α) (h : m.Proper) : (embed2 m).Proper := by
+  obtain ⟨hf, hn⟩ := proper2_form m h
+  rw [hf, embed2_rot2]
+  exact rotZ_proper _ _ hn
+
+/-- the embedding is multiplicative and has the matrix as its upper-left block -/
+theorem embed2_mul (A B : M2 α) : embed2 (A.mul B) = (embed2 A).mul (embed2 B) := by
+  simp only [embed2, M2.mul, M3.mul, M3.mk.injEq]
+  and_intros <;> ring
+
+theorem embed2_block2 (m : M2 α) : (embed2 m).block2 = m := rfl
+
+/-- Euler angles `(a, 0, 0)` in the default convention `zyx` give the planar rotation by `a`:
+`euler_to_rotationmatrix((a, 0, 0))` has `rot2 (cos a) (sin a)` as its upper-left block and is the
+embedding of it, so the 2×2 branch of `euler_from_rotationmatrix` and `euler_to_rotationmatrix`
+invert each other on planar rotations (given `euler_zyx_injective_off_gimbal`). -/
+theorem euler_zyx_planar (c s : α) :
+    eulerZYX c s 1 0 1 0 = embed2 (rot2 c s) ∧ (eulerZYX c s 1 0 1 0).block2 = rot2 c s := by
+  simp only [eulerZYX, rotX, rotY, rotZ, embed2, rot2, M3.mul, M3.block2, M3.mk.injEq, M2.mk.injEq]
+  and_intros <;> ring
+
+end planar
+
+example : (rot2 (3/5 : Rat) (4/5)).Proper ∧ embed2 (rot2 (3/5 : Rat) (4/5)) = ⟨3/5, -4/5, 0, 4/5, 3/5, 0, 0, 0, 1⟩ := by
+  simp only [M2.Proper, M2.Orthonormal, rot2, embed2, M2.tr, M2.mul, M2.id, M2.det, M2.mk.injEq, M3.mk.injEq]
+  decide +kernel
+
 /-! ## QR branch of `get_rotation_matrices` -/
 section qr
 variable {α : Type} [CommRing α]
